@@ -16,9 +16,10 @@ EXTENDS Text
 
 RdOpTok(o) ==
   CASE o = "Eq" -> <<"=">> [] o = "Ne" -> <<"!", "=">> [] o = "Lt" -> <<"<">> [] o = "Gt" -> <<">">>
-    [] o = "Le" -> <<"<", "=">> [] o = "Ge" -> <<">", "=">> [] o = "user" -> <<"~", "=">> [] OTHER -> <<>>
+    [] o = "Le" -> <<"<", "=">> [] o = "Ge" -> <<">", "=">> [] o \in {"user", "uslice"} -> <<"~", "=">> [] OTHER -> <<>>
 
-RdOpValid(o) == o \in {"Eq", "Ne", "Lt", "Gt", "Le", "Ge", "user"}
+\* "user" / "uslice": user-defined Operators (text ~=, context "user") whose Go types are comparable / NOT comparable (a slice type)
+RdOpValid(o) == o \in {"Eq", "Ne", "Lt", "Gt", "Le", "Ge", "user", "uslice"}
 
 RdSp(n) == IF n.nspad THEN <<>> ELSE <<"SP">>
 
